@@ -349,7 +349,7 @@ def gen_callbacks(loader, check, kind_pairs, replay_on=True, families=None, full
 def replay_callback(a):
     from rzilcompiler.Transformer.RZILTransformer import RZILTransformer
     from rzilcompiler.ArchEnum import ArchEnum
-    mdl = a.get("model", {})
+    mdl = {k: (0 if v is None else v) for k, v in (a.get("model") or {}).items()}
     ka, ta = a["ka"], tuple(a["ta"])
     oa = _real_operand(ka, ta, "a")
     vals = {}
